@@ -4,7 +4,8 @@ Every entry of selfval/breaking is applied to a scratch copy of /repo (outside /
 the copy must still build and vet, and every property named in its 'expect:' line must raise a violation, every
 property in its 'silent:' line must stay silent.  Every entry of selfval/preserving (behaviour-preserving edits:
 renaming, reordering, helper extraction, if/switch, shortcuts that keep the semantics) must build and leave ALL
-requested checks silent.  Writes evidence/selfval-<prop|all>.json; exit 1 on any mismatch."""
+requested checks silent.  Every entry of selfval/residual is a behaviour-preserving rewrite that the analysis is known not
+to follow (DESIGN.md 8.7): the checks named in its 'residual:' line may fail closed, all others must stay silent.  Writes evidence/selfval-<prop|all>.json; exit 1 on any mismatch."""
 import json, os, re, shutil, subprocess, sys, tempfile, glob, concurrent.futures as cf
 HERE = os.path.dirname(os.path.dirname(os.path.abspath(__file__)))
 prop = None
@@ -26,6 +27,8 @@ def header(path):
         if m: exp = [] if m.group(1).strip() == "none" else m.group(1).split()
         m = re.match(r"#\s*silent:\s*(.*)", l)
         if m: sil = m.group(1).split()
+        m = re.match(r"#\s*residual:\s*(.*)", l)
+        if m: sil = m.group(1).split()   # for selfval/residual: the checks that are allowed to alarm
     return exp, sil
 def entry(path, kind):
     if kind == "seeded":
@@ -38,6 +41,13 @@ def entry(path, kind):
     if kind == "preserving":
         checks = [prop] if prop else ALL
         sil = checks
+    elif kind == "residual":
+        # behaviour-preserving rewrites the abstract domains cannot follow (documented limitations): the checks named in
+        # the 'residual:' line fail closed (their alarm is recorded, not counted); every other check must stay silent
+        tolerated = sil
+        checks = [prop] if prop else ALL
+        sil = [c for c in checks if c not in tolerated]
+        exp = []
     else:
         checks = sorted(set(exp + sil))
         if prop:
@@ -72,7 +82,7 @@ def entry(path, kind):
         return out
     finally:
         shutil.rmtree(d, ignore_errors=True)
-work = [(p, "breaking") for p in sorted(glob.glob(f"{HERE}/selfval/breaking/*.py") + glob.glob(f"{HERE}/selfval/breaking/*.diff"))] + [(p, "preserving") for p in sorted(glob.glob(f"{HERE}/selfval/preserving/*.py") + glob.glob(f"{HERE}/selfval/preserving/*.diff"))] + [(p, "seeded") for p in sorted(glob.glob(f"{HERE}/seeded/*/patch.diff"))]
+work = [(p, "breaking") for p in sorted(glob.glob(f"{HERE}/selfval/breaking/*.py") + glob.glob(f"{HERE}/selfval/breaking/*.diff"))] + [(p, "preserving") for p in sorted(glob.glob(f"{HERE}/selfval/preserving/*.py") + glob.glob(f"{HERE}/selfval/preserving/*.diff"))] + [(p, "seeded") for p in sorted(glob.glob(f"{HERE}/seeded/*/patch.diff"))] + [(p, "residual") for p in sorted(glob.glob(f"{HERE}/selfval/residual/*.diff") + glob.glob(f"{HERE}/selfval/residual/*.py"))]
 results = []
 with cf.ThreadPoolExecutor(max_workers=jobs) as ex:
     for r in ex.map(lambda w: entry(*w), work):
